@@ -659,7 +659,18 @@ def _flat_taxonomy_case(ctx, index, r, sig, spec, axis, md, variant):
                     t.to_hdf5(f, 'vm', compress=r.random() < .5,
                               format_fs={'taxonomy': general_formatter})
                 else:
-                    t.to_hdf5(f, 'vm', compress=r.random() < .5)
+                    kw_ = {}
+                    others = sorted(k_ for k_ in md[0] if k_ != 'taxonomy')
+                    if others and r.random() < .4:
+                        # a formatter named for *another* category (the
+                        # default one, so nothing changes for that category)
+                        # leaves the handling of taxonomy as it is
+                        from biom.table import general_formatter
+                        kw_['format_fs'] = {others[0]: general_formatter}
+                        desc['format_fs_for'] = others[0]
+                        ctx.count('flat_taxonomy_with_formatter_for_another_'
+                                  'category')
+                    t.to_hdf5(f, 'vm', compress=r.random() < .5, **kw_)
         except Exception:
             ctx.count('ragged_metadata_refused')
             ctx.case(desc, True)
